@@ -18,9 +18,10 @@
     complex window having stride 1 and its first level no later than the
     first crossing trial; kinds Consistency / Cross / Derivation /
     AtMostKInARow / AtLeastKInARow / ExactlyKInARow / ExactlyK / Exclude (on a
-    factor with a complex window: stride 1) / Pin / Sequential (on factors
-    without a complex window; Pin and Sequential on unsustained factors,
-    Sequential without a preamble); combinations
+    factor with a complex window: stride 1) / Pin (any factor of act_design,
+    any sustain of the geometry, the pinned trials inside the block) /
+    Sequential (a factor without a complex window, its preamble a whole
+    number of its sustain groups); combinations
     left out of a crossing by Exclude constraints or by a crossed derived
     level no compatible arguments satisfy)
     every model of the formula the samplers hand to the solver
